@@ -295,7 +295,7 @@ MUTANTS = [
            "        if dmap:\n            self.spec = Transformer(dmap).visit(self.spec)\n\n    @property\n    def variable_map",
            expect=('R5', 'variables')),
     Mutant('repair-section-append', 'loki/ir/nodes/internal_nodes.py', "        self._update(body=self.body + as_tuple(node))",
-           "        self._update(body=self.body + as_tuple(node), source=None)", expect=None),
+           "        self._update(body=self.body + as_tuple(node), source=None)", count=2, expect=None),
     Mutant('neutral-new-conservative-handler', CON,
            "    def visit_Section(self, o, *args, **kwargs):\n",
            "    def visit_Allocation(self, o, *args, **kwargs):\n        if o.source and o.source.status == SourceStatus.VALID:\n            return o.source.string\n        return super().visit_Allocation(o, *args, **kwargs)\n\n    def visit_Section(self, o, *args, **kwargs):\n",
